@@ -111,6 +111,8 @@ def run(ctx, rep):
     LR.check_frame_comparators(fx, rep, "C02.4")
     LR.check_class_lookup(fx, rep, "C02.4")
     LR.check_section_slices(fx, rep, "C02.5")
+    # the cache can only answer like the mapper if `parse` accepts what `write` wrote and hands the reader the sections as written
+    CF.check_parse(fx, rep, "C02.5p")
     wv = CF.WriterView(fx, rep, "C02.5")
     if wv.ok:
         seqs = CF.check_emission(fx, rep, "C02.5", wv)
